@@ -139,14 +139,14 @@ func c42Names(rt *rapid.T, univ []string) (string, []string) {
 		port := rapid.SampledFrom(c42Ports).Draw(rt, "patport")
 		if port != "22" {
 			p = "[" + p + "]:" + port
-			kind += "+port"
+			kinds = append(kinds, "mod:bracketed-port")
 		} else if rapid.IntRange(0, 19).Draw(rt, "br22") == 0 {
 			p = "[" + p + "]:22"
-			kind += "+[]:22"
+			kinds = append(kinds, "mod:[h]:22")
 		}
 		if rapid.IntRange(0, 4).Draw(rt, "neg") == 0 {
 			p = "!" + p
-			kind = "!" + kind
+			kinds = append(kinds, "mod:negated")
 		}
 		pats = append(pats, p)
 		kinds = append(kinds, kind)
@@ -222,7 +222,7 @@ func (g *c42Gen) line(rt *rapid.T, univ []string, certBlobs [][]byte) c42Line {
 			l.PatKind = []string{"hashed:ref"}
 		}
 		if port != "22" {
-			l.PatKind[0] += "+port"
+			l.PatKind = append(l.PatKind, "mod:hashed-port")
 		}
 		setKey(rapid.SampledFrom(c42HostKeys).Draw(rt, "hostkey"))
 	case "ca":
@@ -732,8 +732,34 @@ func TestC42(t *testing.T) {
 			var ls []c42Line
 			var sb strings.Builder
 			for i := 0; i < n; i++ {
-				l := g.line(rt, univ, certBlobs)
-				ls = append(ls, l)
+				ls = append(ls, g.line(rt, univ, certBlobs))
+			}
+			if fi == 0 {
+				// aim: most certificate queries get a @cert-authority line for
+				// their CA whose pattern is derived from the queried host, so
+				// that the certificate checks behind the authority lookup are reached
+				for _, q := range queries {
+					if q.Cert == nil || q.Cert.CA == "ed25519-ca3" || rapid.IntRange(0, 3).Draw(rt, "aimCA") == 0 {
+						continue
+					}
+					pat, kind := c42HostPattern(rt, q.Host)
+					if q.Port != "22" {
+						pat = "[" + pat + "]:" + q.Port
+					}
+					pk := pool.pub(q.Cert.CA)
+					l := c42Line{Kind: "ca", Names: pat, Sep: " ", KeyName: q.Cert.CA, KeyType: pk.Type(), KeyBlob: pk.Marshal(), PatKind: []string{kind}}
+					if rapid.IntRange(0, 3).Draw(rt, "aimMore") == 0 {
+						more, mk := c42Names(rt, univ)
+						l.Names += "," + more
+						l.PatKind = append(l.PatKind, mk...)
+					}
+					at := rapid.IntRange(0, len(ls)).Draw(rt, "aimAt")
+					ls = append(ls[:at:at], append([]c42Line{l}, ls[at:]...)...)
+				}
+				n = len(ls)
+			}
+			for i := 0; i < n; i++ {
+				l := ls[i]
 				sb.WriteString(l.text())
 				if i == n-1 && noFinalNL {
 					break
